@@ -1056,6 +1056,15 @@ theorem C10_tee_fallback_writes_tag_twice :
     (Tee.run true (fun _ => true) 0 Tee.init [.close]).2 = [.ok] ∧
     Tee.final (Tee.run true (fun _ => true) 0 Tee.init [.close]).1.wire = false := by decide
 
+/-- **probe fact** (real sessions negotiated by `xmpp.NewNegotiator` with no tee / a working tee /
+a `TeeOut` writer that fails when the session is closed; `Close`, `Close` twice, `Serve`'s own
+shutdown): closing tags seen by the connection, results of the closing calls and the closed bit
+are what `Tee` computes — one tag, the tee's error reported, the second `Close` nil -/
+theorem C10_probe_tee_close : Generated.C10.teeCloseProbe = some (Tee.probeTable false) := by decide
+
+/-- the probe tells the two shapes apart: with the fallback write the failing-tee row has two tags -/
+theorem C10_probe_tee_close_fallback_differs : Tee.probeTable true ≠ Tee.probeTable false := by decide
+
 /-- non-vacuity: a tee that fails from the second operation on; the element of the failing
 transmit call is on the wire, the encoder is dead, the tag is written once -/
 example : (Tee.run false (fun i => decide (1 ≤ i)) 0 Tee.init [.tx, .tx, .tx, .close, .peerClose, .close]) =
@@ -1089,6 +1098,15 @@ returns nil. -/
 theorem C10_unjoined_watcher_loses_closing_tag :
     (WdHist.run false WdHist.init [.tx .over, .close, .close]) =
       (⟨true, false, true, 0, [.el]⟩, [.ok, .failed, .ok]) := by decide
+
+/-- **probe fact** (real session on a transport that honours the write deadline, deadline calls
+scheduled adversarially: a "past" call is held until somebody clears the deadline): for every
+entry point that takes a context and every fate of that context — result, only "past, clear"
+pairs of `SetWriteDeadline`, deadline cleared at return, one closing tag from a following `Close` —
+equal to what `WdHist` computes for the joined watcher -/
+theorem C10_probe_write_deadline : Generated.C10.writeDeadlineProbe = some (WdHist.probeTable true) := by decide
+
+theorem C10_probe_write_deadline_unjoined_differs : WdHist.probeTable false ≠ WdHist.probeTable true := by decide
 
 open ConnDl in
 /-- the two orders of the watcher's calls on the connection: "past, clear" leaves the write
